@@ -61,6 +61,10 @@ type World struct {
 
 	Net *Net
 
+	// stall faults: a task stays parked while the clock moves
+	Stalls  bool
+	stalled map[*simrt.Task]time.Time
+
 	lastAdvanceStep int
 	BudgetExhausted bool
 	Sample          map[string]any
@@ -321,8 +325,6 @@ func topLibFrame(stack string) string {
 // loop runs until the root script is done, a violation or harness error is
 // recorded, or a budget is exhausted.
 func (w *World) loop() {
-	horizon := time.NewTimer(w.Horizon)
-	defer horizon.Stop()
 	for {
 		synctest.Wait()
 		if len(w.S.Panics) > 0 {
@@ -360,6 +362,12 @@ func (w *World) loop() {
 		parked := w.S.Parked()
 		var run, quiesce []*simrt.Task
 		for _, t := range parked {
+			if until, ok := w.stalled[t]; ok {
+				if time.Now().Before(until) {
+					continue
+				}
+				delete(w.stalled, t)
+			}
 			if t.Ready != nil && !t.Ready() {
 				continue
 			}
@@ -394,13 +402,18 @@ func (w *World) loop() {
 			if next != nil {
 				nc = next.C
 			}
+			left := w.Horizon - now.Sub(w.T0)
+			if left <= 0 {
+				w.HarnessError("horizon reached (%v) with the scenario still running; alive: %s", w.Horizon, w.aliveSummary())
+				return
+			}
+			horizon := time.NewTimer(left)
 			select {
 			case <-w.S.Notify:
 			case <-nc:
 			case <-horizon.C:
-				w.HarnessError("horizon reached (%v) with the scenario still running; alive: %s", w.Horizon, w.aliveSummary())
-				return
 			}
+			horizon.Stop()
 			if next != nil {
 				next.Stop()
 			}
@@ -431,6 +444,17 @@ func (w *World) loop() {
 			}
 		}
 		t := opts[k]
+		if w.Stalls && !w.NoStall && t.Tag != "quiesce" && w.Draw(400, "stall") == 1 {
+			// stall fault: t stays parked while the clock moves (a starved goroutine / GC pause)
+			d := time.Duration(w.Range(1, 4000, "stallms")) * time.Millisecond
+			until := w.deadlineAfter(d)
+			if w.stalled == nil {
+				w.stalled = map[*simrt.Task]time.Time{}
+			}
+			w.stalled[t] = until
+			w.Fault("stall")
+			continue
+		}
 		w.last = t
 		w.mu.Lock()
 		w.seq++
